@@ -134,9 +134,11 @@ pub fn check_ym_grid(y: u32, m: u32) -> Result<bool, String> {
         }
         Err(e) => {
             let ok = match e {
+                // the statement fixes no error kinds: only a kind whose documented meaning names a
+                // field that is fine is a contradiction; any other kind is "an error"
                 Error::InvalidMonth => month_bad,
                 Error::IntervalOutOfRange => range_bad,
-                _ => false,
+                _ => true,
             };
             if !ok {
                 return Err(format!("try_from_ym({y}, {m}) = Err({e:?}); month bad = {month_bad}, value out of range = {range_bad}"));
@@ -171,7 +173,7 @@ pub fn check_dt_grid(d: u32, h: u32, mi: u32, s: u32, us: u32) -> Result<bool, S
                 Error::InvalidSecond => sb,
                 Error::InvalidFraction => ub,
                 Error::IntervalOutOfRange => range_bad,
-                _ => false,
+                _ => true,
             };
             if !ok {
                 return Err(format!("try_from_dhms({d},{h},{mi},{s},{us}) = Err({e:?}) does not match a bad field"));
@@ -187,8 +189,8 @@ pub fn check_oob(kind: u8, v: i64) -> Result<(), String> {
         _ => IntervalDT::try_from_usecs(v).map(|x| x.usecs()),
     })?;
     match r {
-        Err(Error::IntervalOutOfRange) => Ok(()),
-        other => Err(format!("{}({v}) = {other:?}, expected Err(IntervalOutOfRange)", if kind == 0 { "IntervalYM::try_from_months" } else { "IntervalDT::try_from_usecs" })),
+        Err(_) => Ok(()),
+        other => Err(format!("{}({v}) = {other:?}, expected an error (the count is outside the documented range)", if kind == 0 { "IntervalYM::try_from_months" } else { "IntervalDT::try_from_usecs" })),
     }
 }
 
